@@ -78,3 +78,26 @@ Proof.
       * split; [discriminate|]. intros H. exfalso. apply H. apply Hlost. exact E.
       * split; [|reflexivity]. intros _ Heq. apply E. apply Hlost. exact Heq.
 Qed.
+
+(* sanity of the specification function: trunc_sig24 n keeps the 24 leading bits of n and clears the rest *)
+Lemma trunc_sig24_spec n : 0 < n ->
+  let sh := Z.max 0 (Z.log2 n - 23) in let q := n / 2 ^ sh in
+  trunc_sig24 n = q * 2 ^ sh /\ 0 < q < 2 ^ 24 /\ (0 < sh -> 2 ^ 23 <= q) /\
+  trunc_sig24 n <= n < trunc_sig24 n + 2 ^ sh.
+Proof.
+  intros Hn sh q. unfold trunc_sig24. fold sh. fold q.
+  pose proof (Z.log2_spec n Hn) as Hl. pose proof (Z.log2_nonneg n) as Hk. set (k := Z.log2 n) in *.
+  assert (Hsh : 0 <= sh) by (unfold sh; lia).
+  pose proof (pow2_pos sh Hsh) as HP.
+  assert (Hdm : n = 2 ^ sh * q + n mod 2 ^ sh) by (apply Z.div_mod; lia).
+  assert (Hrem : 0 <= n mod 2 ^ sh < 2 ^ sh) by (apply Z.mod_pos_bound; lia).
+  assert (Hlo : 2 ^ (k - sh) <= q).
+  { apply Z.div_le_lower_bound; [lia|]. rewrite <- Z.pow_add_r by (unfold sh; lia). replace (sh + (k - sh)) with k by lia. lia. }
+  assert (Hhi : q < 2 ^ (k + 1 - sh)).
+  { apply Z.div_lt_upper_bound; [lia|]. rewrite <- Z.pow_add_r by (unfold sh; lia). replace (sh + (k + 1 - sh)) with (Z.succ k) by lia. lia. }
+  pose proof (pow2_pos (k - sh) ltac:(unfold sh; lia)).
+  split; [reflexivity|]. split; [split; [lia|]|split].
+  - pose proof (pow2_le (k + 1 - sh) 24 ltac:(unfold sh; lia)). lia.
+  - intros Hpos. replace (k - sh) with 23 in Hlo by (unfold sh in *; lia). exact Hlo.
+  - nia.
+Qed.
